@@ -2,6 +2,7 @@ import Req.Driver.Proto
 import Req.Client.Url
 import Req.Driver.WireUtil
 import Req.Client.Merge
+import Req.H2.Fields
 /-! Driver lanes of C01. -/
 namespace Req.Driver.L.C01
 open Req.Proto
@@ -62,6 +63,20 @@ def laneRuri : List String → String
       | .ok u => "ruri=" ++ encodeHex (Req.Url.requestURI u)
       | .error _ => "err"
     | _, _, _, _, _, _, _ => "bad-op"
+  | _ => "bad-op"
+
+/-- `c01valid <s>`: every validation / sanitising predicate of the request path on one string. -/
+def laneValid : List String → String
+  | [x] =>
+    match decodeHex x with
+    | some v =>
+      s!"method={b01 (Req.Validate.validMethod v)} name={b01 (Req.Validate.validHeaderFieldName v)} " ++
+      s!"value={b01 (Req.Validate.validHeaderFieldValue v)} host={b01 (Req.Validate.validHostHeader v)} " ++
+      s!"ctl={b01 (Req.BStr.containsCTL v)} close={b01 (Req.Validate.hasToken v Req.H1.sClose)} " ++
+      s!"san={encodeHex (Req.Validate.sanitizeValue v)} zone={encodeHex (Req.Validate.removeZone v)} " ++
+      s!"port={encodeHex (Req.Url.removeEmptyPort v)} excl2={b01 (Req.H2.isExcluded v)} " ++
+      s!"excl1={b01 (Req.H1.reqWriteExcludeHeader.contains v)} lacks={b01 (Req.H1.methodUsuallyLacksBody v)}"
+    | none => "bad-op"
   | _ => "bad-op"
 
 /-- `c01parse <raw>`: `url.Parse` + `String()` + `RequestURI()`. -/
@@ -187,6 +202,7 @@ def lanes : List (String × (List String → String)) := [
   ("c01pipe", lanePipe),
   ("c01h1", laneH1),
   ("c01url", laneUrl),
+  ("c01valid", laneValid),
   ("c01ruri", laneRuri),
   ("c01parse", laneParse),
   ("c01esc", laneEsc)
